@@ -148,9 +148,12 @@ fn cmd_check(args: &[String]) -> i32 {
         }
         let ts = Instant::now();
         let br = run_batch(part.scen, &id, tier, seed, n, workers, known.clone(), false);
-        if let Some(e) = br.harness_error {
+        if let (Some(e), None) = (&br.harness_error, &br.failure) {
             eprintln!("harness: {e}");
             return 2;
+        }
+        if let Some(e) = &br.harness_error {
+            eprintln!("note: a run was abandoned ({e}); a violation found by another run is reported");
         }
         if let Some(f) = br.failure {
             let v = f.out.ctx.violation.clone().unwrap();
